@@ -563,7 +563,9 @@ theorem init_allData (r bits : Nat) : AllData (ChainTree.init r bits) := by
   left
   simp only [getNode, ChainTree.init, List.find?_cons, List.find?_nil] at h
   split at h
-  · next he => simpa using he.symm
+  · next he =>
+    have : r = x := by simpa using he
+    exact this.symm
   · cases h
 
 theorem AllData.deliver {U : List Block} {c : Chain} (ha : AllData c) (hU : BlockTree c.root U) (b : Block) (hbU : b ∈ U)
